@@ -239,13 +239,24 @@ func read[EntityT entity.Interface](def Definition, wrapper func(e *Entity) Enti
 		}
 	}
 
-	return wrapper(&Entity{
+	result := wrapper(&Entity{
 		Definition: def,
 		ops:        ops,
 		lastCommit: rootHash,
 		createTime: createTime,
 		editTime:   editTime,
-	}), nil
+	})
+
+	// The entity's id is derived from its content: make sure that what is stored
+	// under this ref is indeed the entity that the ref names.
+	if len(ops) == 0 {
+		return *new(EntityT), fmt.Errorf("entity has no operations")
+	}
+	if result.Id() != entity.RefToId(ref) {
+		return *new(EntityT), fmt.Errorf("the ref name doesn't match the entity id")
+	}
+
+	return result, nil
 }
 
 // reverseTopologicalOrder sorts the commits reachable from head so that each commit is placed
